@@ -129,6 +129,16 @@ def template_programs(kind: str, rng) -> list:
             progs.append([["copy", 0, True], ["call", 1, m, 0], ["copy", 1, False], ["assign", 2, var, a1], ["call", 2, m, 0], ["call", 1, m, 0]])
             progs.append([["copy", 0, True], ["pickle", 1], ["call", 1, m, 0], ["copy", 1, False], ["assign", 2, var, a2], ["call", 2, m, 0],
                           ["assign", 0, var, a1], ["call", 0, m, 0]])
+            # a read-only snapshot must keep its values when the state it was taken from is updated IN PLACE afterwards
+            for how in ("scale", "shift"):
+                progs.append([["call", 0, m, 0], ["copy", 0, True], ["inplace", 0, var, how, a1], ["call", 1, m, 0], ["call", 0, m, 0]])
+    # every ordered pair of methods evaluated as cache misses right after an assignment (a method that stores auxiliary
+    # values under another method's key is only wrong for the pair evaluated in that order)
+    for m1 in meths:
+        for m2 in meths:
+            if m1 != m2:
+                var = "mom" if rng.integers(0, 2) else "pos"
+                progs.append([["assign", 0, var, int(rng.integers(0, 10**6))], ["call", 0, m1, 0], ["call", 0, m2, 0]])
     return progs
 
 
